@@ -4,11 +4,11 @@ CONSTANTS
   Types = {1}
   Langs = {0}
   Names = {1}
-  Feats = {1, 2, 3, 4}
+  Feats = {0, 1, 2, 3}
   FTypes = {1}
   Vars = {1}
   Vals = {1}
-  MaxIds = 1
+  MaxIds = 0
   MaxFeats = 5
   MaxFields = 0
   MaxVals = 1
